@@ -297,6 +297,22 @@ def check_jis_codec(ctx):
     kf, kl, off = int(r["katakana_first"], 16), int(r["katakana_last"], 16), int(r["katakana_offset"], 16)
     ok = table.get(0x5C) == int(r["0x5C"], 16) and table.get(0x7E) == int(r["0x7E"], 16) and all(table.get(i) == i + off for i in range(kf, kl + 1)) and all(table.get(i) == i for i in range(0x20, 0x7E) if i != 0x5C)
     ctx.ob("C01.T2", "jis8_decoding_map", ok, "the table is JIS X 0201: 0x5C yen sign, 0x7E overline, 0xA1-0xDF half-width katakana, ASCII otherwise" if ok else "the decoding table deviates from JIS X 0201", key="jis-x-0201", where=where)
+    # the codec functions: strict by default (set()/supports_value() use encode() as their acceptance test), right table
+    for fname, prim, table_name in (("_jis_x_0201_encode", "codecs.charmap_encode", "jis8_encoding_map"), ("_jis_x_0201_decode", "codecs.charmap_decode", "jis8_decoding_map")):
+        cf = repo.module_func("secsgem.common.codec_jis_x_0201", fname)
+        ctx.touch(cf)
+        params = [a.arg for a in cf.node.args.args]
+        defaults = [repo.fold(d, cf.module) if isinstance(d, ast.Constant) else None for d in cf.node.args.defaults]
+        rets = [st for st in rules.func_stmts(cf.node) if isinstance(st, ast.Return)]
+        okf = (len(params) == 2 and defaults == ["strict"] and len(rets) == 1 and isinstance(rets[0].value, ast.Call) and call_name(rets[0].value) == prim
+               and [norm(a) for a in rets[0].value.args] == [params[0], params[1], table_name])
+        ctx.ob("C01.T2", f"codec_jis_x_0201.{fname}", okf, f"{fname} maps through {table_name} and is strict by default (a character without a JIS X 0201 code point is refused, not replaced)" if okf else
+               f"{fname}(data, errors={defaults[0] if defaults else None!r}) -> `{norm(rets[0].value) if rets else None}`: with a non-strict default (or another table) text that has no JIS-8 encoding is accepted by set() and transmitted as other characters",
+               key="codec-function", where=cf.where)
+    sf = repo.module_func("secsgem.common.codec_jis_x_0201", "_jis_x_0201_search")
+    txt = " ".join(norm(st) for st in rules.func_stmts(sf.node))
+    oks = "codecs.CodecInfo(" in txt and "encode=_jis_x_0201_encode" in txt and "decode=_jis_x_0201_decode" in txt and "'jis_8'" in txt
+    ctx.ob("C01.T2", "codec_jis_x_0201._jis_x_0201_search", oks, "the codec is registered under jis_8 with this encoder/decoder pair" if oks else "the codec lookup does not return CodecInfo(encode=_jis_x_0201_encode, decode=_jis_x_0201_decode) for 'jis_8'", key="codec-registration", where=sf.where)
     ok = len(enc_stmts) == 1 and norm(enc_stmts[0].value) in ("codecs.make_encoding_map(jis8_decoding_map)",) and not other_writes
     ctx.ob("C01.T2", "jis8_encoding_map", ok, "the encoding table is exactly the inverse of the decoding table" if ok else
            f"the encoding table is modified after inversion ({other_writes[:2]}): a character is encoded to a byte that decodes to a different character, so accepted JIS-8 text does not round-trip", key="inverse", where=where)
